@@ -83,7 +83,7 @@ func drawContractOps(t *sim.Tape) []cop {
 	ops := []cop{{kind: "form"}}
 	n := t.Range(3, 10)
 	for i := 0; i < n; i++ {
-		k := pick(t, "append", "append", "append", "free", "roots", "fund", "fund", "replenish", "renew", "refresh-full", "refresh-partial", "fund-exact", "fund-over", "expired-prices", "bad-prices-sig", "append-big")
+		k := pick(t, "append", "append", "append", "free", "roots", "fund", "fund", "replenish", "renew", "refresh-full", "refresh-partial", "fund-exact", "fund-over", "expired-prices", "bad-prices-sig", "append-big", "hostile")
 		ops = append(ops, cop{kind: k})
 	}
 	for i := range ops {
@@ -115,8 +115,8 @@ func runContractV2(s *Session, ops []cop) {
 	// the host's price table
 	base := rhp4.HostPrices{
 		ContractPrice:   drawCur(t, 0, 6),
-		Collateral:      drawCur(t, 0, 2).Div64(uint64(pick(t, 1, 1000, 1<<22))),
-		StoragePrice:    drawCur(t, 0, 2).Div64(uint64(pick(t, 1, 1000, 1<<22))),
+		Collateral:      drawCur(t, 0, 4).Div64(uint64(pick(t, 1, 1, 1000, 1<<22))), // per byte and block: up to ~1e15 H, where a few sectors risk whole siacoins
+		StoragePrice:    drawCur(t, 0, 4).Div64(uint64(pick(t, 1, 1, 1000, 1<<22))),
 		IngressPrice:    drawCur(t, 0, 2),
 		EgressPrice:     drawCur(t, 0, 2),
 		FreeSectorPrice: drawCur(t, 0, 4),
@@ -182,6 +182,14 @@ func runContractV2(s *Session, ops []cop) {
 			txn := types.V2Transaction{FileContractRevisions: []types.V2FileContractRevision{{Parent: el.Copy(), Revision: rev}}}
 			return rev.HostSignature, settle(what, txn)
 		}
+		// a request is untrusted input: Validate must come back with a verdict
+		validate := func(what string, fn func() error) (err error) {
+			if pn := guardPanic(func() { err = fn() }); pn != "" {
+				bad("validate-panic", "%s: Validate panicked on a request a renter can send: %s", what, pn)
+				return rhp4.NewRPCError(rhp4.ErrorCodeBadRequest, "panic")
+			}
+			return err
+		}
 		for {
 			id, err := rhp4.ReadID(c)
 			if err != nil {
@@ -195,15 +203,23 @@ func runContractV2(s *Session, ops []cop) {
 				if rhp4.ReadRequest(c, &req) != nil {
 					return
 				}
-				if err := req.Validate(host.pk, tip, maxCollateral, maxDuration); err != nil {
+				if err := validate(fmt.Sprintf("form request (allowance %v, collateral %v, proof height %d)", req.Contract.Allowance, req.Contract.Collateral, req.Contract.ProofHeight), func() error { return req.Validate(host.pk, tip, maxCollateral, maxDuration) }); err != nil {
 					e.inc("c17.rejected-by-validate")
 					if !reply(nil, err) {
 						return
 					}
 					continue
 				}
-				fc, _ := rhp4.NewContract(req.Prices, req.Contract, host.pk, host.addr)
-				rc, hc := rhp4.ContractCost(chain.s, fc, req.MinerFee)
+				var fc types.V2FileContract
+				var rc, hc types.Currency
+				if pn := guardPanic(func() {
+					fc, _ = rhp4.NewContract(req.Prices, req.Contract, host.pk, host.addr)
+					rc, hc = rhp4.ContractCost(chain.s, fc, req.MinerFee)
+				}); pn != "" {
+					bad("constructor-panic", "form request (allowance %v, collateral %v, fee %v) passed Validate, then NewContract / ContractCost panicked: %s", req.Contract.Allowance, req.Contract.Collateral, req.MinerFee, pn)
+					reply(nil, rhp4.NewRPCError(rhp4.ErrorCodeHostError, "panic"))
+					return
+				}
 				h := chain.s.ContractSigHash(fc)
 				fc.RenterSignature, fc.HostSignature = renter.sk.SignHash(h), host.sk.SignHash(h)
 				txn := types.V2Transaction{FileContracts: []types.V2FileContract{fc}, MinerFee: req.MinerFee}
@@ -377,15 +393,21 @@ func runContractV2(s *Session, ops []cop) {
 					if rhp4.ReadRequest(c, &req) != nil {
 						return
 					}
-					if err := req.Validate(host.pk, tip, cur, maxCollateral, maxDuration); err != nil {
+					if err := validate(fmt.Sprintf("renew request (allowance %v, collateral %v, proof height %d; contract filesize %d)", req.Renewal.Allowance, req.Renewal.Collateral, req.Renewal.ProofHeight, cur.Filesize), func() error { return req.Validate(host.pk, tip, cur, maxCollateral, maxDuration) }); err != nil {
 						e.inc("c17.rejected-by-validate")
 						if !reply(nil, err) {
 							return
 						}
 						continue
 					}
-					renewal, _ = rhp4.RenewContract(cur, req.Prices, host.addr, req.Renewal)
-					rc, hc = rhp4.RenewalCost(chain.s, renewal, req.MinerFee)
+					if pn := guardPanic(func() {
+						renewal, _ = rhp4.RenewContract(cur, req.Prices, host.addr, req.Renewal)
+						rc, hc = rhp4.RenewalCost(chain.s, renewal, req.MinerFee)
+					}); pn != "" {
+						bad("constructor-panic", "renew request (allowance %v, collateral %v, proof height %d) passed Validate, then RenewContract / RenewalCost panicked: %s", req.Renewal.Allowance, req.Renewal.Collateral, req.Renewal.ProofHeight, pn)
+						reply(nil, rhp4.NewRPCError(rhp4.ErrorCodeHostError, "panic"))
+						return
+					}
 					fee = req.MinerFee
 					what = fmt.Sprintf("renewal (allowance %v, collateral %v, proof height %d; old renter %v host %v total collateral %v filesize %d)", req.Renewal.Allowance, req.Renewal.Collateral, req.Renewal.ProofHeight, cur.RenterOutput.Value, cur.HostOutput.Value, cur.TotalCollateral, cur.Filesize)
 				} else {
@@ -394,19 +416,25 @@ func runContractV2(s *Session, ops []cop) {
 					if rhp4.ReadRequest(c, &req) != nil {
 						return
 					}
-					if err := req.Validate(host.pk, tip, cur, maxCollateral, partial); err != nil {
+					if err := validate(fmt.Sprintf("refresh request partial=%v (allowance %v, collateral %v; contract total collateral %v missed %v)", partial, req.Refresh.Allowance, req.Refresh.Collateral, cur.TotalCollateral, cur.MissedHostValue), func() error { return req.Validate(host.pk, tip, cur, maxCollateral, partial) }); err != nil {
 						e.inc("c17.rejected-by-validate")
 						if !reply(nil, err) {
 							return
 						}
 						continue
 					}
-					if partial {
-						renewal, _ = rhp4.RefreshContractPartialRollover(cur, req.Prices, host.addr, req.Refresh)
-					} else {
-						renewal, _ = rhp4.RefreshContractFullRollover(cur, req.Prices, host.addr, req.Refresh)
+					if pn := guardPanic(func() {
+						if partial {
+							renewal, _ = rhp4.RefreshContractPartialRollover(cur, req.Prices, host.addr, req.Refresh)
+						} else {
+							renewal, _ = rhp4.RefreshContractFullRollover(cur, req.Prices, host.addr, req.Refresh)
+						}
+						rc, hc = rhp4.RefreshCost(chain.s, req.Prices, renewal, req.MinerFee)
+					}); pn != "" {
+						bad("constructor-panic", "refresh request partial=%v (allowance %v, collateral %v) passed Validate, then the refresh constructor / RefreshCost panicked: %s", partial, req.Refresh.Allowance, req.Refresh.Collateral, pn)
+						reply(nil, rhp4.NewRPCError(rhp4.ErrorCodeHostError, "panic"))
+						return
 					}
-					rc, hc = rhp4.RefreshCost(chain.s, req.Prices, renewal, req.MinerFee)
 					fee = req.MinerFee
 					what = fmt.Sprintf("refresh partial=%v (allowance %v, collateral %v; old renter %v host %v missed %v total collateral %v)", partial, req.Refresh.Allowance, req.Refresh.Collateral, cur.RenterOutput.Value, cur.HostOutput.Value, cur.MissedHostValue, cur.TotalCollateral)
 				}
@@ -517,7 +545,7 @@ func runContractV2(s *Session, ops []cop) {
 			case "form":
 				cp := rhp4.RPCFormContractParams{RenterPublicKey: renter.pk, RenterAddress: renter.addr,
 					Allowance: types.Siacoins(uint32(1 + op.r[0]%400)).Add(types.NewCurrency64(uint64(op.r[1] % 7))), ProofHeight: tip.Height + rhp4.MinContractDuration + uint64(op.r[2]%150)}
-				cp.Collateral = rhp4.MaxHostCollateral(p, cp.Allowance)
+				cp.Collateral = safeMaxCollateral(p, cp.Allowance)
 				switch op.r[3] % 4 {
 				case 0:
 					cp.Collateral = types.ZeroCurrency
@@ -731,6 +759,35 @@ func runContractV2(s *Session, ops []cop) {
 				if rerr == nil && !host.pk.VerifyHash(chain.s.ContractSigHash(rev), sig) {
 					bad("parties-disagree", "%s: the host signed a different revision than the renter derived", kind)
 				}
+			case "hostile":
+				// a renter that sends extreme numbers: the host must answer, whatever it answers
+				ext := []types.Currency{types.MaxCurrency, types.MaxCurrency.Sub(types.NewCurrency64(1)), types.NewCurrency(0, 1<<63), types.NewCurrency(^uint64(0), 0), types.ZeroCurrency, types.NewCurrency64(1)}
+				a, cl := ext[op.r[0]%len(ext)], ext[op.r[1]%len(ext)]
+				ph := []uint64{^uint64(0), ^uint64(0) - rhp4.ProofWindow, ^uint64(0) - rhp4.ProofWindow - 1, 0, tip.Height + 30, cur.ProofHeight + 1}[op.r[2]%6]
+				fee := []types.Currency{minerFee, types.MaxCurrency, types.ZeroCurrency}[op.r[3]%3]
+				ins := chain.ownedBy(renter.addr)
+				var req rhp4.Object
+				var id types.Specifier
+				switch op.r[4] % 4 {
+				case 0:
+					req, id = &rhp4.RPCRenewContractRequest{Prices: p, Renewal: rhp4.RPCRenewContractParams{ContractID: fcid, Allowance: a, Collateral: cl, ProofHeight: ph}, MinerFee: fee, Basis: tip, RenterInputs: ins[:1]}, rhp4.RPCRenewContractID
+				case 1:
+					req, id = &rhp4.RPCRefreshContractRequest{Prices: p, Refresh: rhp4.RPCRefreshContractParams{ContractID: fcid, Allowance: a, Collateral: cl}, MinerFee: fee, Basis: tip, RenterInputs: ins[:1]}, rhp4.RPCRefreshContractID
+				case 2:
+					req, id = &rhp4.RPCRefreshContractRequest{Prices: p, Refresh: rhp4.RPCRefreshContractParams{ContractID: fcid, Allowance: a, Collateral: cl}, MinerFee: fee, Basis: tip, RenterInputs: ins[:1]}, rhp4.RPCRefreshPartialID
+				default:
+					req, id = &rhp4.RPCFormContractRequest{Prices: p, Contract: rhp4.RPCFormContractParams{RenterPublicKey: renter.pk, RenterAddress: renter.addr, Allowance: a, Collateral: cl, ProofHeight: ph}, MinerFee: fee, Basis: tip, RenterInputs: ins[:1]}, rhp4.RPCFormContractID
+				}
+				_, rerr, ok := call(id, req)
+				if !ok {
+					return
+				}
+				if rerr == nil {
+					// accepted: the session's contract is no longer the one the renter tracks
+					e.logf("op %d hostile request accepted", i)
+					return
+				}
+				e.inc("c17.hostile-refused")
 			case "renew", "refresh-full", "refresh-partial":
 				allowance := types.Siacoins(uint32(1 + op.r[0]%300)).Add(types.NewCurrency64(uint64(op.r[1] % 5)))
 				switch op.r[2] % 4 {
@@ -744,12 +801,20 @@ func runContractV2(s *Session, ops []cop) {
 				if allowance.IsZero() {
 					allowance = types.NewCurrency64(1)
 				}
-				collateral := rhp4.MaxHostCollateral(p, allowance)
-				switch op.r[3] % 4 {
+				collateral := safeMaxCollateral(p, allowance)
+				switch op.r[3] % 7 {
 				case 0:
 					collateral = types.ZeroCurrency
 				case 1:
 					collateral = collateral.Div64(3)
+				case 2:
+					collateral = cur.MissedHostValue // what the host has left unrisked
+				case 3:
+					collateral = cur.TotalCollateral
+				case 4:
+					collateral = cur.MissedHostValue.Add(cur.TotalCollateral.Sub(cur.MissedHostValue).Div64(2)) // between the two
+				case 5:
+					collateral = cur.MissedHostValue.Div64(2)
 				}
 				if collateral.Cmp(maxCollateral) > 0 {
 					collateral = maxCollateral
@@ -1142,4 +1207,16 @@ func runContractV1(s *Session) {
 	go renterTask(s.ea, s.a)
 	go hostTask(s.eb, s.b)
 	s.run(4000)
+}
+
+// safeMaxCollateral is MaxHostCollateral where its result fits, else the largest currency.
+func safeMaxCollateral(p rhp4.HostPrices, allowance types.Currency) (c types.Currency) {
+	c = types.MaxCurrency
+	if p.StoragePrice.IsZero() {
+		return
+	}
+	if v, over := p.Collateral.MulWithOverflow(allowance.Div(p.StoragePrice)); !over {
+		c = v
+	}
+	return
 }
